@@ -130,6 +130,15 @@ impl Ctx {
         *n += 1;
         if *n <= 1 {
             self.res.violations.push(Violation { key, what: what.into(), replay });
+        } else if *n <= 200 {
+            // keep the smallest witness seen for this key
+            let size = |v: &Value| serde_json::to_string(v).map(|s| s.len()).unwrap_or(usize::MAX);
+            if let Some(cur) = self.res.violations.iter_mut().find(|v| v.key == key) {
+                if size(&replay) < size(&cur.replay) {
+                    cur.what = what.into();
+                    cur.replay = replay;
+                }
+            }
         }
     }
 
@@ -308,6 +317,10 @@ pub fn aggregate(
     let mut by_key: BTreeMap<String, Vec<&Violation>> = BTreeMap::new();
     for v in &total.violations {
         by_key.entry(v.key.clone()).or_default().push(v);
+    }
+    // the smallest witness first: that is the one written to the replay file
+    for vs in by_key.values_mut() {
+        vs.sort_by_key(|v| serde_json::to_string(&v.replay).map(|s| s.len()).unwrap_or(usize::MAX));
     }
     let mut unknown = 0usize;
     let mut known_hit = BTreeSet::new();
